@@ -241,6 +241,9 @@ void xmp_restart_module(xmp_context opaque)
 
 	p->loop_count = 0;
 	p->pos = -1;
+	/* See set_position: don't let a pending break or jump of the
+	 * current row execute at the start of the sequence. */
+	libxmp_reset_flow(ctx);
 }
 
 int xmp_seek_time(xmp_context opaque, int time)
